@@ -42,7 +42,9 @@ ASSUMPTIONS = [
     '(biomon/oracle/c13_ties.py) are regenerated, not judged); stored values are accepted at rtol 1e-9 / '
     'atol 1e-11 (1e-6 / 1e-8 when the formula contains the engine normal CDF) and the shadow then adopts the stored value',
     'a remove condition is used only when every row is exactly 0 or farther than 1e-6 from 0 in the reference evaluation',
-    'two rows are the same row when index label and all values coincide; partitions are judged on multisets of such rows',
+    'index labels are not part of the property: tables are compared on columns, row order and values (panel() and remove() on panel '
+    'data renumber the index); for split / bootstrap two rows are the same row when index label and all values coincide, and when '
+    'only the labels of the returned frames differ the judgement is repeated on values alone; partitions are judged on multisets',
     'individuals handed out by sample_individual_map_with_replacement are read as (id, first position, last position), '
     'which is how biogeme hands the map to the engine',
 ]
@@ -202,7 +204,8 @@ def selftest():
         got = [m for m, _ in sh.judge_split(s, folds, 3 if name == 'nfolds' else 2, g)]
         if mech not in got:
             bad.append(f'judge_split misses a planted {name} fault (got {got})')
-    if sh.judge_sample(s, good[0][0], 2) or not sh.judge_sample(s, {'labels': [9], 'cols': s['cols'], 'rows': [s['rows'][0]]}, 1):
+    if sh.judge_sample(s, good[0][0], 2) or not sh.judge_sample(s, {'labels': [0], 'cols': s['cols'], 'rows': [(1.0, 23.0, 35.0)]}, 1) \
+            or sh.judge_sample(s, {'labels': [9], 'cols': s['cols'], 'rows': [s['rows'][0]]}, 1):
         bad.append('judge_sample wrong')
     cur = [(1.0, 0, 2), (2.0, 3, 4)]
     if sh.judge_individual_sample(s, 'ID', cur, [cur[1], cur[1]], 2):
@@ -309,9 +312,14 @@ def run_case(case):
         rec.ev()
         got = sh.snap(state['db'].data)
         want = state['shadow'].snapshot()
-        if not sh.same(got, want):
+        # rows, values, order and columns; index labels are not part of the property (panel() and remove() on
+        # panel data renumber them): the shadow takes over the labels it sees
+        if not sh.same_rows(got, want):
             viol(f'table-differs-from-shadow-after-{op}', sh.diff(got, want))
             raise _Stop()
+        if got['labels'] != want['labels']:
+            rec.c('index_relabelled_by_' + op)
+            state['shadow'].labels = list(got['labels'])
 
     def gaps():
         s = state['shadow']
@@ -445,7 +453,7 @@ def run_case(case):
             if bad:
                 now = sh.snap(D.data)
                 if set(said) == {'C13/panel-reorders-observations'} and sorted(now['rows']) == sorted(s.rows) \
-                        and sh.column(now, c) == s.col(c) and now['labels'] == s.labels:
+                        and sh.column(now, c) == s.col(c):
                     # only the order of the observations inside individuals changed (recorded above): the
                     # sequence goes on from the table as it is, so that later operations are still observed
                     s.rows = list(now['rows'])
